@@ -6,6 +6,8 @@ import (
 	"sort"
 	"strings"
 
+	zp "github.com/Oudwins/zog/internals"
+
 	"verif/harness/internal/eng"
 	"verif/harness/internal/rng"
 	"verif/harness/internal/sx"
@@ -100,7 +102,7 @@ func (v *resView) issueKeys(withFirst bool, fields string, onlyCodes map[string]
 	return b.String()
 }
 
-func (v *resView) noIssues() bool { return len(v.issues.List) == 1 }
+func (v *resView) noIssues() bool { return !v.panic && v.issues != nil && len(v.issues.List) == 1 }
 
 var requiredCodes = map[string]bool{"required": true, "not_nil": true}
 
@@ -197,6 +199,12 @@ func engineGen(g *eng.Gen, variant string, i int) {
 		g.CatchBias = i%3 == 1
 	case "nested":
 		g.NestedDefaults = true
+	case "deep":
+		g.Deep = true
+		g.NoPosts = i%2 == 0
+	case "retype":
+		g.NearSuccess = i%2 == 0
+		g.Populated = i%2 == 0
 	case "api":
 		// the less travelled parts of the public API: WithCoercer on every schema kind (also through Ptr),
 		// custom and Preprocess schemas used directly
@@ -214,7 +222,14 @@ func engineCase(g *eng.Gen, variant string, i int) *eng.Case {
 	if variant == "nested" && i%3 == 0 {
 		return g.AliasCase(i)
 	}
-	return g.Case(i)
+	c := g.Case(i)
+	if variant == "retype" {
+		// one schema object, two destination struct types with the same fields at different positions:
+		// first the other type, then the case proper
+		c.WarmOther = true
+		c.AltDest = i%2 == 0
+	}
+	return c
 }
 
 // regenerateEngineCase rebuilds case `idx` of the stream and executes it on the implementation.
@@ -241,6 +256,10 @@ func streamEngine(seed uint64, n int, driver, corpus, dump, variant string) (*Su
 		g := &eng.Gen{R: root.Fork()}
 		engineGen(g, variant, i)
 		c := engineCase(g, variant, i)
+		if variant == "deep" {
+			// cold pools: a fresh path builder has to grow while the deep path is being built
+			zp.ClearPools()
+		}
 		res := eng.Run(c)
 		cases = append(cases, c)
 		impls = append(impls, res)
